@@ -80,13 +80,23 @@ class LabelSpace(Subspace):
         nk = len(kinds)
         naming = case["naming"]
         names = {"unnamed": [None] * nk, "named": [f"k{j}" for j in range(nk)],
-                 "mixed": [f"k{j}" if j % 2 == 0 else None for j in range(nk)]}[naming]
+                 "mixed": [f"k{j}" if j % 2 == 0 else None for j in range(nk)],
+                 # keys given as a mapping / frame: the mapping's keys (column labels) name the levels,
+                 # whatever the arrays inside are called
+                 "dict": [f"d{j}" for j in range(nk)], "dict_renamed": [f"d{j}" for j in range(nk)],
+                 "frame": [f"c{j}" for j in range(nk)]}[naming]
+        inner = {"dict": [None] * nk, "dict_renamed": [f"inner{j}" for j in range(nk)],
+                 "frame": [None] * nk}.get(naming, names)
         keys, labels = [], []
         for j, kind in enumerate(kinds):
-            arr, lab = gbh.make_key([kt[j] for kt in kts], kind, seed + j, name=names[j])
+            arr, lab = gbh.make_key([kt[j] for kt in kts], kind, seed + j, name=inner[j])
             keys.append(arr)
             labels.append(lab)
         keyarg = keys[0] if nk == 1 else keys
+        if naming in ("dict", "dict_renamed"):
+            keyarg = dict(zip(names, keys))
+        elif naming == "frame":
+            keyarg = pd.DataFrame(dict(zip(names, keys)))
         gids = [None if any(k < 0 for k in kt) else (kt if nk > 1 else kt[0]) for kt in kts]
 
         def lab_of(g):
@@ -243,6 +253,14 @@ def subspaces(tier, seed):
                 naming="named", seed=seed, containers=few))
     sp.append(S("three-keys-mixed-n1to2", 2, 1, 2, kinds=("int", "str_obj", "float"), naming="mixed",
                 seed=seed, containers=few))
+    # keys given as a mapping or a frame
+    for nm in ("dict", "dict_renamed", "frame"):
+        sp.append(S(f"two-keys-{nm}-n1to2", 2, 1, 2, kinds=("int", "str_obj"), naming=nm, seed=seed,
+                    containers=["ndarray", "list2"], opnames=("sum", "size", "first")))
+        sp.append(S(f"one-key-{nm}-n1to3", 3, 1, 3, kinds=("float",), naming=nm, seed=seed,
+                    containers=["ndarray"], opnames=("sum", "size")))
+    sp.append(S("three-keys-dict-n1to2", 2, 1, 2, kinds=("int", "str_obj", "float"), naming="dict", seed=seed,
+                containers=["ndarray"], opnames=("sum", "count")))
     if not q:
         sp.append(S("three-keys-unnamed-n3", 2, 3, 3, kinds=("int", "str_obj", "int"), seed=seed,
                     containers=["ndarray", "list2"], opnames=("sum", "count")))
